@@ -109,7 +109,7 @@ def explore(ctx, extended=False, focus=None):
                "comparison boundaries, traced by the real code over p = 97; complete enumeration of the satisfying assignments of the "
                "wires the operation introduced; violation = a satisfying assignment whose result differs from the honest one, or a "
                "boolean result outside {0,1}; distinct = (operator, kinds, bitlength, operand values)")
-    n = ctx.n(250, 6000) * (4 if extended else 1)
+    n = ctx.n(750, 24000) * (4 if extended else 1)
     cases = corpus_cases("C02") + [gen_case(ctx.rnd, f"c02_{i}") for i in range(n)]
     recs = execute_all(cases)
     jobs = []; jobrecs = []
